@@ -29,7 +29,7 @@ Section FixedLib.
 
   Lemma wf_of_U l : NoDup (keys l) -> in_U l -> wf_store l.
   Proof.
-    intros Hnd HU. constructor; [exact Hnd | intros e He; apply U_id; apply HU; exact He |].
+    intros Hnd HU. constructor; [exact Hnd | intros e He; destruct (U_id _ (HU e He)) as (H1 & _ & H3); split; assumption |].
     intros e p He Hp. pose proof (find_some _ _ _ Hp) as [Hpin Hk].
     apply U_up; [apply HU; exact He | apply HU; exact Hpin | symmetry; exact Hk].
   Qed.
@@ -697,7 +697,7 @@ Section FixedLib.
         * exact HsH.
         * rewrite app_nil_r. exact HS.
         * exists s3, evs, (rev (map eb (pP ++ [en]))). split; [exact Hrun|]. split; [exact Happ|]. split; [exact HI3|]. apply Hfin3; assumption.
-      + destruct (scss_link (db s) (ri r0) (bid hd) (bparent b) pH pP Hwf Hneq HcH HcP0) as (C & R & Uh & j & HP & HH & Hsc).
+      + destruct (scss_link (db s) (ri r0) (bid hd) (bparent b) pH pP Hwf L_id Hneq HcH HcP0) as (C & R & Uh & j & HP & HH & Hsc).
         { intros f t e0 Hu He0. exact (tail_disjoint (db s) pP (bparent b) Hl HU Hnd HcP0 f t e0 Hu He0). }
         rewrite Hsc in Hsw. injection Hsw as <- <- <-.
         destruct (trigger_finish s1 S b pP C R Uh j HI1 Hb Hc HP) as (s3 & evs & Hrun & Happ & HI3 & Hk3).
